@@ -1,4 +1,5 @@
 import SigHook.Model.RegistryConc
+import SigHook.Lemmas.RegistryConcHand
 /-!
 # C04 — A pre-existing handler is chained: once per delivery, first, same arguments
 
@@ -82,5 +83,118 @@ theorem C04_once_and_first (env : Registry.Env) (ye : Nat) (s s' : Sys) (t : Nat
     simp only [hpc] at hs
     repeat' split at hs
     all_goals (first | (simp at hs; done) | (simp at hs; obtain ⟨_, rfl⟩ := hs; simp at hd))
+
+
+/-! ## The handover, for every reachable state of the concurrent model
+
+`origDisp s sig` is the disposition recorded as "what the library replaced" for `sig`: the slot's
+`prev` once the slot is published, before that what `race_fallback` currently holds. The theorems
+say: it is recorded from the instant the library's handler is installed and equals the
+disposition that was in place at that instant (`C04_records_what_it_replaced`); it exists whenever
+the library's handler is the disposition (`C04_recorded_from_first_instant`); it never changes
+afterwards, whatever other signals are being registered concurrently (`C04_record_never_changes`);
+and a delivery - which only runs while the library's handler is installed - chains exactly
+`prevCalled` of it (`C04_delivery_chains_the_record`), once and before any action
+(`C04_once_and_first`). All this for any number of threads, any scripts, every interleaving,
+starting from any disposition table that does not contain the library's handler. -/
+
+open SigHook.Registry (Env)
+
+/-- **C04.records_what_it_replaced** — the step that installs the library's handler for `sig`
+(`Slot::new`'s `sigaction`) leaves `origDisp sig` = the disposition that was in place just before. -/
+theorem C04_records_what_it_replaced {env : Env} {ye : Nat} {disp : List (Int × Disp)}
+    {scripts : List (List Op)} {s s' : Sys} {t : Nat} {out : StepOut} {sig : Int}
+    (hd : ∀ e ∈ disp, ∀ f, e.2 ≠ .lib f)
+    (hr : Reachable env ye disp scripts s) (hs : step env ye s t = some (s', out))
+    (hev : out.ev = .sigaction sig true true) : origDisp s' sig = some (dispOf s sig) := by
+  have hI := inv6_reachable hr
+  have h7b := inv7b_reachable hd hr
+  cases hth : s.threads[t]? with
+  | none => unfold step at hs; simp [hth] at hs
+  | some th =>
+    have h6 := step6_of hI hth hs
+    cases h6 with
+    | setOk sg tag new res hpc hrj =>
+      simp only at hev; injection hev with hsg; subst hsg
+      have hc := hI.coh t th hth; rw [hpc] at hc; simp only [CohT] at hc
+      have hF := h7b.hand t th hth; rw [hpc] at hF; simp only [HandT] at hF
+      exact origDisp_pending hc.1.1 hF
+    | _ => simp at hev
+
+/-- **C04.recorded_from_first_instant** — whenever the library's handler is the disposition of
+`sig`, a record exists: the slot is published, or the first registration (holding `data`'s writer
+mutex) is about to publish it and `race_fallback` holds the record meanwhile. -/
+theorem C04_recorded_from_first_instant {env : Env} {ye : Nat} {disp : List (Int × Disp)}
+    {scripts : List (List Op)} {s : Sys} {sig : Int} {f : Nat}
+    (hd : ∀ e ∈ disp, ∀ f, e.2 ≠ .lib f)
+    (hr : Reachable env ye disp scripts s) (hl : dispOf s sig = .lib f) : (origDisp s sig).isSome = true := by
+  have h7b := inv7b_reachable hd hr
+  cases hs : lookup sig (cur s).signals with
+  | some slot => rw [origDisp_slot hs]; rfl
+  | none =>
+    rcases h7b.over sig f hl with h | ⟨j, thj, new, res, v, slot, _, _, _, _, h5⟩
+    · rw [hs] at h; cases h
+    · rw [origDisp_pending hs h5]; rfl
+
+/-- **C04.record_never_changes** — no step of any thread changes the record of a signal that has
+the library's handler installed: not the publication of the slot, not a later first registration
+of another signal overwriting `race_fallback`, not any action registration or removal. -/
+theorem C04_record_never_changes {env : Env} {ye : Nat} {disp : List (Int × Disp)}
+    {scripts : List (List Op)} {s s' : Sys} {t : Nat} {out : StepOut} {sig : Int} {f : Nat}
+    (hd : ∀ e ∈ disp, ∀ f, e.2 ≠ .lib f)
+    (hr : Reachable env ye disp scripts s) (hs : step env ye s t = some (s', out))
+    (hl : dispOf s sig = .lib f) : origDisp s' sig = origDisp s sig := by
+  have hI := inv6_reachable hr
+  cases hth : s.threads[t]? with
+  | none => unfold step at hs; simp [hth] at hs
+  | some th => exact origDisp_stable hI (inv7b_reachable hd hr) hth (step6_of hI hth hs) sig f hl
+
+/-- **C04.delivery_chains_the_record** — a delivery about to call a chained handler calls exactly
+the recorded one, with its convention (`prevCalled`); and a delivery only exists while the
+library's handler is installed. -/
+theorem C04_delivery_chains_the_record {env : Env} {ye : Nat} {disp : List (Int × Disp)}
+    {scripts : List (List Op)} {s : Sys} {t : Nat} {th : Thread} {sig : Int} {d : Disp} {tags : List Nat}
+    (hd : ∀ e ∈ disp, ∀ f, e.2 ≠ .lib f)
+    (hr : Reachable env ye disp scripts s) (hth : s.threads[t]? = some th)
+    (hpc : th.pc = .dPlan sig (some d) tags) :
+    (origDisp s sig).bind prevCalled = some d ∧ ∃ f, dispOf s sig = .lib f := by
+  have h7b := inv7b_reachable hd hr
+  have hT := h7b.hand t th hth; rw [hpc] at hT; simp only [HandT] at hT
+  refine ⟨?_, (inv7a_reachable hr).lib t th sig hth (by rw [hpc]; rfl)⟩
+  rcases hT with h | h
+  · cases h
+  · exact h.symm
+
+/-- and when the record is a default / ignore disposition (or the delivery's plan was computed
+with nothing to chain) no handler is called: the plan has `none` -/
+theorem C04_no_call_for_default_or_ignore {env : Env} {ye : Nat} {disp : List (Int × Disp)}
+    {scripts : List (List Op)} {s s' : Sys} {t : Nat} {th : Thread} {out : StepOut} {sig : Int} {v : Nat}
+    (hd : ∀ e ∈ disp, ∀ f, e.2 ≠ .lib f)
+    (hr : Reachable env ye disp scripts s) (hth : s.threads[t]? = some th) (hpc : th.pc = .dData sig)
+    (hs : step env ye s t = some (s', out)) (hev : out.ev = .hd (.load "data" v)) :
+    ∃ tags, s'.threads[t]? = some { th with pc := .dPlan sig ((origDisp s sig).bind prevCalled) tags } := by
+  have hI := inv6_reachable hr
+  have h7b := inv7b_reachable hd hr
+  have ht := (List.getElem?_eq_some_iff.1 hth).1
+  have h6 := step6_of hI hth hs
+  have hself := hand_self hI h7b hth h6
+  cases h6 with
+  | dataPin sg hd' pf hpc' hcF mv =>
+    rw [hpc] at hpc'; injection hpc' with hsg; subst hsg
+    have hT := h7b.hand t th hth; rw [hpc] at hT; simp only [HandT] at hT
+    obtain ⟨pf', hpf, hdis⟩ := hT
+    rw [hcF] at hpf; injection hpf with hpf; subst hpf
+    refine ⟨(planOf (cur s) ((lookupN pf s.cf).getD none) sig).2, ?_⟩
+    rw [setT_get _ _ _ (by simpa using ht), ← planOf_fst_orig]
+    rcases hdis with h | h
+    · rw [planOf_fst_slot _ _ (curF s) _ h]
+    · rw [h]; rfl
+  | dataStep sg hd' p o pf hpc' hcF mv hp ho =>
+    exfalso
+    simp only at hev
+    rcases ho with ⟨w, rfl⟩ | ⟨l, w, rfl⟩
+    · injection hev with hev; injection hev with h1 h2; simp at h1
+    · injection hev with hev; cases hev
+  | _ => simp_all
 
 end SigHook.RegConc
